@@ -96,34 +96,47 @@ func checkC12(c *Ctx) *core.Result {
 	}
 
 	// ---------------- K1: the cascade of check()
-	paths, err := ssax.EnumeratePaths(chk, 2000)
+	// paths are enumerated with helper functions expanded in place (everything that is
+	// not one of the anchored roles), so moving parts of the cascade into helpers is
+	// not a deviation
+	anchored := map[*ssa.Function]bool{pass: true, lookup: true, gate: true, fold: true, initFn: true, tokenize: true, strCore: true, f2d: true}
+	inlineHelper := func(callee *ssa.Function, depth int) bool {
+		return p.InModule(callee) && !anchored[callee] && depth <= 3 && len(callee.Blocks) <= 60
+	}
+	paths, err := ssax.EnumerateTraces(chk, inlineHelper, 2000)
 	if err != nil {
 		r.Fail("K1", core.QualName(chk), "path enumeration", p.Pos(chk.Pos()), err.Error())
 	}
-	classify := func(iff *ssa.If, edge int) cascadeEv {
-		ev := cascadeEv{kind: "other", pos: iff.Pos(), descr: iff.Cond.String()}
-		if _, succ, ok := isLookupTest(iff, lookup, kFP); ok {
-			return cascadeEv{kind: "F", b: edge == succ, pos: iff.Pos()}
+	classify := func(tr *ssax.Trace, it ssax.TItem) cascadeEv {
+		ev := cascadeEv{kind: "other", pos: it.Ins.Pos(), descr: it.Cond.String()}
+		if _, firedWhenTrue, ok := lookupTestOf(tr, it.Cond, it.CondFr, lookup, kFP); ok {
+			return cascadeEv{kind: "F", b: it.True == firedWhenTrue, pos: it.Ins.Pos()}
 		}
-		if call, ok := iff.Cond.(*ssa.Call); ok && call.Common().StaticCallee() == gate {
-			return cascadeEv{kind: "R", b: edge == 0, pos: iff.Pos()}
+		if call, ok := it.Cond.(*ssa.Call); ok && call.Common().StaticCallee() == gate {
+			return cascadeEv{kind: "R", b: it.True, pos: it.Ins.Pos()}
 		}
-		bo, ok := iff.Cond.(*ssa.BinOp)
+		bo, ok := it.Cond.(*ssa.BinOp)
 		if !ok {
 			return ev
 		}
+		edge := 1
+		if it.True {
+			edge = 0
+		}
 		// strings.IndexByte(input, c) != -1
-		if call, ok := bo.X.(*ssa.Call); ok {
+		bx, bxfr := tr.Resolve(bo.X, it.CondFr)
+		if call, ok := bx.(*ssa.Call); ok {
 			if f := call.Common().StaticCallee(); f != nil && (f.String() == "strings.IndexByte" || f.String() == "strings.ContainsRune" || f.String() == "strings.Contains") {
 				args := call.Common().Args
-				if len(args) == 2 && a.loadsField(args[0], "sql.state.input") {
+				arg0, _ := tr.Resolve(args[0], bxfr)
+				if len(args) == 2 && a.loadsField(arg0, "sql.state.input") {
 					var ch int64 = -1
-					if k, ok := ssax.ConstInt(args[1]); ok {
+					if k, ok := tr.ConstInt(args[1], bxfr); ok {
 						ch = k
 					} else if s, ok := ssax.ConstString(args[1]); ok && len(s) == 1 {
 						ch = int64(s[0])
 					}
-					if k, ok := ssax.ConstInt(bo.Y); ok && ch >= 0 && f.String() == "strings.IndexByte" {
+					if k, ok := tr.ConstInt(bo.Y, it.CondFr); ok && ch >= 0 && f.String() == "strings.IndexByte" {
 						found := false
 						okShape := true
 						switch {
@@ -141,19 +154,19 @@ func checkC12(c *Ctx) *core.Result {
 							okShape = false
 						}
 						if okShape {
-							return cascadeEv{kind: "Q", n: ch, b: found, pos: iff.Pos()}
+							return cascadeEv{kind: "Q", n: ch, b: found, pos: it.Ins.Pos()}
 						}
 					}
 				}
 			}
 		}
 		// s.length == 0 / len(s.input) == 0
-		if k, ok := ssax.ConstInt(bo.Y); ok && k == 0 && (a.loadsField(bo.X, "sql.state.length") || isLenOfField(a, bo.X, "sql.state.input")) {
+		if k, ok := tr.ConstInt(bo.Y, it.CondFr); ok && k == 0 && (a.loadsField(bx, "sql.state.length") || isLenOfField(a, bx, "sql.state.input")) {
 			switch bo.Op {
 			case token.EQL:
-				return cascadeEv{kind: "empty", b: edge == 0, pos: iff.Pos()}
+				return cascadeEv{kind: "empty", b: edge == 0, pos: it.Ins.Pos()}
 			case token.NEQ, token.GTR:
-				return cascadeEv{kind: "empty", b: edge == 1, pos: iff.Pos()}
+				return cascadeEv{kind: "empty", b: edge == 1, pos: it.Ins.Pos()}
 			}
 		}
 		return ev
@@ -161,31 +174,27 @@ func checkC12(c *Ctx) *core.Result {
 	// also accept the gate inlined by SCCP? no: an inlined gate is "other" ⇒ reported.
 	f1, f2, f3, f4, f5 := qNone|ansi, qNone|mysql, qS|ansi, qS|mysql, qD|mysql
 	nOK := 0
-	for pi, path := range paths {
+	for pi := range paths {
+		path := &paths[pi]
 		var evs []cascadeEv
-		for i, b := range path.Blocks {
-			for _, ins := range b.Instrs {
-				switch x := ins.(type) {
-				case *ssa.Call:
-					if x.Common().StaticCallee() == pass {
-						fl := int64(-1)
-						for _, arg := range x.Common().Args {
-							if k, ok := ssax.ConstInt(arg); ok {
-								fl = k
-							}
-						}
-						evs = append(evs, cascadeEv{kind: "pass", n: fl, pos: x.Pos()})
-					}
-				case *ssa.If:
-					evs = append(evs, classify(x, path.Edge(i)))
-				case *ssa.Return:
-					if bv, ok := ssax.ConstBool(x.Results[0]); ok {
-						evs = append(evs, cascadeEv{kind: "ret", b: bv, pos: x.Pos()})
-					} else {
-						evs = append(evs, cascadeEv{kind: "other", pos: x.Pos(), descr: "non-constant return " + x.Results[0].String()})
+		for _, it := range path.Items {
+			switch {
+			case it.Branch:
+				evs = append(evs, classify(path, it))
+			case it.Call != nil && it.Call.Common().StaticCallee() == pass:
+				fl := int64(-1)
+				for _, arg := range it.Call.Common().Args {
+					if k, ok := path.ConstInt(arg, it.Fr); ok {
+						fl = k
 					}
 				}
+				evs = append(evs, cascadeEv{kind: "pass", n: fl, pos: it.Call.Pos()})
 			}
+		}
+		if path.RetKnown {
+			evs = append(evs, cascadeEv{kind: "ret", b: path.Ret, pos: path.RetPos})
+		} else {
+			evs = append(evs, cascadeEv{kind: "other", pos: path.RetPos, descr: "non-constant return"})
 		}
 		// simulate the specification automaton against the events
 		i := 0
@@ -310,8 +319,7 @@ func checkC12(c *Ctx) *core.Result {
 		}
 		expr := fmt.Sprintf("cascade path #%d", pi)
 		if mismatch != "" {
-			last := path.Blocks[len(path.Blocks)-1]
-			r.Fail("K1", core.QualName(chk), "cascade deviates: "+mismatch, p.Pos(last.Instrs[len(last.Instrs)-1].Pos()), fmt.Sprintf("%s [%s]: %s", expr, strings.Join(names, " → "), mismatch))
+			r.Fail("K1", core.QualName(chk), "cascade deviates: "+mismatch, p.Pos(path.RetPos), fmt.Sprintf("%s [%s]: %s", expr, strings.Join(names, " → "), mismatch))
 		} else {
 			nOK++
 			r.OK("K1", core.QualName(chk), expr+": "+strings.Join(names, " → "), "-", "matches the specification automaton")
@@ -924,4 +932,45 @@ func checkContentStartUniform(p *core.Program, r *core.Result, fn *ssa.Function)
 	if n < 5 {
 		r.Fail("vacuity", core.QualName(fn), "K6 sites", p.Pos(fn.Pos()), fmt.Sprintf("only %d uses of pos/offset found in the string lexer", n))
 	}
+}
+
+// lookupTestOf recognises `lookup(…, K, …) != 0` / `== 0` on a trace (operands
+// resolved through helpers) and reports whether the test fires on its true side.
+func lookupTestOf(tr *ssax.Trace, cond ssa.Value, cfr *ssax.TFrame, lookup *ssa.Function, k int64) (*ssa.Call, bool, bool) {
+	bo, ok := cond.(*ssa.BinOp)
+	if !ok {
+		return nil, false, false
+	}
+	x, xfr := tr.Resolve(bo.X, cfr)
+	y, yfr := tr.Resolve(bo.Y, cfr)
+	call, isCall := x.(*ssa.Call)
+	callFr := xfr
+	other, otherFr := y, yfr
+	if !isCall || call.Common().StaticCallee() != lookup {
+		call, isCall = y.(*ssa.Call)
+		callFr = yfr
+		other, otherFr = x, xfr
+	}
+	if !isCall || call.Common().StaticCallee() != lookup {
+		return nil, false, false
+	}
+	if z, ok := tr.ConstInt(other, otherFr); !ok || z != 0 {
+		return nil, false, false
+	}
+	hasK := false
+	for _, a := range call.Common().Args {
+		if v, ok := tr.ConstInt(a, callFr); ok && v == k {
+			hasK = true
+		}
+	}
+	if !hasK {
+		return nil, false, false
+	}
+	switch bo.Op {
+	case token.NEQ:
+		return call, true, true
+	case token.EQL:
+		return call, false, true
+	}
+	return nil, false, false
 }
